@@ -239,6 +239,28 @@ def check(repo: Repo, run: Run) -> None:
         s = ast.unparse(setter[0])
         run.shape("C12.N1", "Referent.value.setter", "self._value = ref_to" in s and "self._value_set = True" in s,
                "the setter stores the value and marks it set", ev.loc(setter[0]))
+    # N5: nobody but Referent itself reads the raw value field: every lookup result goes through the `value`
+    # property, which is where "a longer (nested) binding beats the value, the value beats the declaration" lives
+    raw = sorted({a.attr for a in ast.walk(getter) if isinstance(a, ast.Attribute) and isinstance(a.value, ast.Name) and a.value.id == "self"
+                  and a.attr.startswith("_") and not a.attr.endswith("_set")})
+    n5 = 0
+    for modname in ("evaluation", "celpy", "c7nlib"):
+        try:
+            m = repo.mod(modname)
+        except AnchorMissing:
+            continue
+        for q, fn in m.functions():
+            if modname == "evaluation" and q.startswith("Referent."):
+                continue
+            for a in ast.walk(fn):
+                if isinstance(a, ast.Attribute) and a.attr in raw and isinstance(a.ctx, ast.Load) and not (isinstance(a.value, ast.Name) and a.value.id == "self" and not q.startswith(("Activation.", "NameContainer.", "Evaluator."))):
+                    n5 += 1
+                    run.ob("C12.N5", f"{q}|{a.attr}", False,
+                           f"{modname}.{q} reads `{ast.unparse(a)}` directly: the lookup result bypasses Referent.value, so a name that is both a value and the prefix of a longer binding yields the shorter binding's value", m.loc(a))
+    if not raw:
+        run.inconclusive("C12.N5", "Referent.value", "the raw value field read by the `value` property was not identified")
+    elif not n5:
+        run.ob("C12.N5", "Referent raw field", True, f"the raw field(s) {raw} of Referent are read only inside Referent: every lookup goes through the `value` property", ev.loc(cls))
     # N2 -----------------------------------------------------------------
     E = ev.cls("Evaluator")
     meths = class_methods(E)
